@@ -21,7 +21,7 @@ DEFAULT_FAULTS = dict(
     pause=0.0, resume_early=0.0, cancel=0.0, bad_request=0.0, restart=0.0, dup=0.0, poll_skip=0.0,
     poll_twice=0.0, rerun=0.0, eval_fault=0.0, act_canceled=0.5, act_canceling=0.4, act_timeout=0.2, act_abandoned=0.1,
     slow_branch=0.3, suffix_requests=0.0, pending=0.0, mark_running=0.3, act_cancel_solo=0.0, early_pause=0.0,
-    early_cancel=0.0, cancel_while_pausing=0.0, cancel_at_retry=0.0, pause_at_retry=0.0,
+    early_cancel=0.0, cancel_while_pausing=0.0, cancel_at_retry=0.0, pause_at_retry=0.0, act_paused=0.0,
 )
 
 
@@ -350,6 +350,8 @@ class Scheduler(object):
             opts.setdefault("start_path", path)
         if (self.f.get("act_cancel_solo") or 0) > 0:
             opts.setdefault("solo_cancel", True)
+        if (self.f.get("act_paused") or 0) > 0:
+            opts.setdefault("act_pause_seed", 1 + self.K.below(1000000, "knob", "aps_seed"))
         if self.K.u("knob", "abend_before_running") < 0.3:
             opts.setdefault("abend_before_running", 1 + self.K.below(1000000, "knob", "abr_seed"))
         self.opts = opts
@@ -433,6 +435,16 @@ class Scheduler(object):
                 self.do(["deliver", aid, "pending", None])
                 self.heap.push(self.heap.now + 1 + 20 * self.K.u("fault", "respond", aid), ("respond", aid))
                 self.stats["fault_act_pending"] = self.stats.get("fault_act_pending", 0) + 1
+                self.after_handler()
+                continue
+            if ev[0] != "respond" and a["item"] is None and aid not in self.pended and a["state"] == "running" \
+                    and w.status in ("running", "resuming") and not w.cancel_req and not w.pause_req \
+                    and self.coin("act_paused", aid):
+                # the action itself is paused (an operator pauses a child execution); it is resumed
+                # later, after the workflow was resumed if it had come to rest meanwhile
+                self.pended.add(aid)
+                self.do(["deliver", aid, "paused", None])
+                self.heap.push(self.heap.now + 1 + 20 * self.K.u("fault", "respond", aid), ("respond", aid))
                 self.after_handler()
                 continue
             x = a["x"]
